@@ -11,7 +11,7 @@ from ..tools import run_sync_side, run_async_side, Fault, TOOLS
 ID = "C06"
 LEVEL = "fault_enumeration"
 ANCHORS = ["builtins.py", "itertools.py", "heapq.py", "functools.py", "_core.py"]
-RULE = ("for each call spec (all iterator tools and aggregations, inputs of length 0..4) a fault-free stdlib run counts "
+RULE = ("for each call spec (all iterator tools, groupby operation sequences and aggregations, inputs of length 0..4) a fault-free stdlib run counts "
         "the uses of every probe (source pulls incl. end checks, callable invocations); then EVERY (probe, k) with "
         "k = 1..uses is injected on both sides with one exception object and the async run must deliver the same "
         "items, then that very object, and never use the faulted probe again; exception types rotate over "
@@ -30,7 +30,16 @@ EXC = ["Injected", "TypeError", "ValueError", "LookupError", "InjectedBase", "Ru
 
 
 def cases(tier, seed, shard, nshards):
+    from . import C16
     rng = random.Random(f"C06-{seed}-{shard}")
+    n16 = 0
+    for gb in C16.cases(tier, seed, shard, nshards):
+        n16 += 1
+        if n16 % 16 == 0 and len(gb["ops"]) <= 8:
+            if gb["flav"] == "list":
+                gb = dict(gb, flav=rng.choice(["async_class", "sync_iter"]))
+            yield {"kind": "groupby", "gb": gb, "exc": rng.choice(EXC), "phase": rng.choice(["call", "await"]),
+                   "fnfl": rng.choice(FN_FL)}
     n = N_SPECS[tier] // nshards
     names = gen.ITER_TOOL_NAMES + gen.AGG_NAMES
     for i in range(n):
@@ -57,7 +66,47 @@ def cases(tier, seed, shard, nshards):
                "fnfl": rng.choice(FN_FL), "exc": rng.choice(EXC), "phase": rng.choice(["call", "await"])}
 
 
+def run_groupby(case, stats):
+    from . import C16
+    gb = case["gb"]
+    base = C16.gb_side(gb, True)
+    probes = [("src", base["src"].uses)]
+    if base["fn"] is not None:
+        probes.append(("fn", base["fn"].uses))
+    exc_type = FAULT_TYPES[case["exc"]]
+    viols, sigs, evals = [], [], 0
+    fnfl = case.get("fnfl", "def") if (gb["key"] or "").startswith("a") else "def"
+    for kind, uses in probes:
+        for k in range(1, uses + 1):
+            evals += 1
+            ref = C16.gb_side(gb, True, Fault(kind, 0, k, exc_type("injected"), case["phase"]))
+            got = C16.gb_side(gb, False, Fault(kind, 0, k, exc_type("injected"), case["phase"]), fnfl=fnfl)
+            stats["injections"] += 1
+            stats["inj_groupby"] += 1
+            probe = got["src"] if kind == "src" else got["fn"]
+            if ref["results"] and ref["results"][-1][0] == "raise" and ref["results"][-1][2]:
+                stats["stdlib_raised_injected"] += 1
+                sigs.append(("groupby", str(gb), kind, k, case["exc"]))
+            if not probe.faulted:
+                stats["fault_not_reached_by_asyncstdlib"] += 1
+                continue
+            problem = None
+            if ref["results"] != got["results"]:
+                problem = "results"
+            elif probe.use_after_fault:
+                problem = "used-after-fault"
+            if problem:
+                viols.append({"key": f"groupby/{problem}",
+                              "msg": f"groupby keys={gb['keys']} key={gb['key']} flav={gb['flav']} ops={gb['ops']}: fault "
+                                     f"{case['exc']} at use {k} of {kind}: itertools {ref['results']} vs asyncstdlib "
+                                     f"{got['results']}; uses after fault={probe.use_after_fault}"[:1000]})
+    stats["specs_groupby"] += 1
+    return {"violations": viols, "evals": max(1, evals), "sigs": sigs}
+
+
 def run_case(case, stats: Counter):
+    if case.get("kind") == "groupby":
+        return run_groupby(case, stats)
     spec = case["spec"]
     tool = spec["tool"]
     flav = list(case["flav"])[:len(spec["srcs"])] or ["async_class"]
